@@ -29,6 +29,7 @@ import (
 	"os"
 	osexec "os/exec"
 	"runtime/pprof"
+	"sort"
 	"strconv"
 	"strings"
 	"sync"
@@ -69,6 +70,8 @@ type Plan struct {
 
 type exec struct {
 	MsgID    int64 `json:"msg_id"`
+	Session  int64 `json:"session"`  // server-side session id = the connection generation it arrived on
+	Seq      int   `json:"seq"`      // arrival order within the scenario
 	Acked    bool  `json:"acked"`    // client processed an ack for this msg_id (hook)
 	Answered bool  `json:"answered"` // server wrote a result for this execution
 	// AckDelivered: the server sent a msgs_ack containing this msg_id in front of another
@@ -95,6 +98,7 @@ type scen struct {
 	closedAt  time.Time
 	newAfter  *reqState // invocation started after close
 	notes     []string
+	seq       int
 	// after-batched-ack bookkeeping
 	warmMsgID int64
 	aReq      *tgtest.Request
@@ -162,7 +166,8 @@ func handler(server *tgtest.Server, req *tgtest.Request) error {
 	sc.mu.Lock()
 	r := sc.reqs[k]
 	n := len(r.Execs)
-	r.Execs = append(r.Execs, exec{MsgID: req.MsgID})
+	r.Execs = append(r.Execs, exec{MsgID: req.MsgID, Session: req.Session.ID, Seq: sc.seq})
+	sc.seq++
 	sc.mu.Unlock()
 	answer := func() error {
 		sc.mu.Lock()
@@ -615,7 +620,7 @@ func raceReplace(c *hx.Ctx, cfg raceCfg) {
 				cls = 3
 				ev = append(ev, "ECancel", "EWakeCtx")
 			}
-			c.Case(hx.Tuple(hx.List(ev), hx.Tuple(hx.Z(int64(cls)), fmt.Sprintf("%d%%nat", newCalls))),
+			c.Case(fmt.Sprintf("CSingle %s %s %d%%nat", hx.List(ev), hx.Z(int64(cls)), newCalls),
 				map[string]interface{}{"race_round": rounds, "old_calls": oldCalls, "new_calls": newCalls, "err": fmt.Sprint(bad)})
 		}
 		if oldCalls > 0 {
@@ -908,7 +913,7 @@ func judge(c *hx.Ctx, sc *scen) {
 		// ---- model events reconstructed from the observations ----
 		ev, _ := reconstruct(p, r, closed)
 		cls := obsClass(r)
-		sh, ix := c.Case(hx.Tuple(hx.List(ev), hx.Tuple(hx.Z(int64(cls)), fmt.Sprintf("%d%%nat", len(r.Execs)))),
+		sh, ix := c.Case(fmt.Sprintf("CSingle %s %s %d%%nat", hx.List(ev), hx.Z(int64(cls)), len(r.Execs)),
 			map[string]interface{}{"plan": p, "req": k, "state": r, "events": ev, "class": cls})
 		cases = append(cases, struct{ sh, ix int }{sh, ix})
 	}
@@ -921,9 +926,15 @@ func judge(c *hx.Ctx, sc *scen) {
 			viols = append(viols, viol{"invocation-succeeded-after-close", fmt.Sprintf("a new invocation on the closed client of scenario %+v returned success", p)})
 		}
 		cls := obsClass(r)
-		sh, ix := c.Case(hx.Tuple(hx.List([]string{"EClose", "ESnapshot", "EObserveDead", "EWakeClosed"}), hx.Tuple(hx.Z(int64(cls)), fmt.Sprintf("%d%%nat", len(r.Execs)))),
+		sh, ix := c.Case(fmt.Sprintf("CSingle %s %s %d%%nat", hx.List([]string{"EClose", "ESnapshot", "EObserveDead", "EWakeClosed"}), hx.Z(int64(cls)), len(r.Execs)),
 			map[string]interface{}{"plan": p, "req": "new-after-close", "state": r})
 		cases = append(cases, struct{ sh, ix int }{sh, ix})
+	}
+	if mes, obsl, ok := reconstructMulti(p, sc.reqs, closed); ok {
+		sh, ix := c.Case(fmt.Sprintf("CMulti %d%%nat %s %s", len(sc.reqs), hx.List(mes), hx.List(obsl)),
+			map[string]interface{}{"plan": p, "multi": true, "reqs": sc.reqs, "events": mes})
+		cases = append(cases, struct{ sh, ix int }{sh, ix})
+		c.Count(fmt.Sprintf("multi-invocation-case:inflight=%d", len(sc.reqs)))
 	}
 	if sc.dials.Load() > 1 || closed {
 		c.Nontrivial(fmt.Sprintf("%s|%s|%d|%d|%s", p.Kill, p.Close, p.NReq, p.Target, pattern))
@@ -975,6 +986,128 @@ func errClass(e string) string {
 		return "context"
 	}
 	return "other"
+}
+
+// reconstructMulti builds ONE joint event list for all requests of a scenario (Model/ClientRetryN.v):
+// the server-side session id of every execution tells the connection generation it arrived
+// on; own events are tagged with the request index, kill / replace / start / close are shared.
+func reconstructMulti(p Plan, reqs []*reqState, closed bool) ([]string, []string, bool) {
+	if p.Close == "close-backoff" {
+		return nil, nil, false
+	}
+	type ex struct {
+		k, j int
+		e    exec
+	}
+	var all []ex
+	for k, r := range reqs {
+		if !r.Returned {
+			return nil, nil, false
+		}
+		if c := obsClass(r); c != 0 && c != 1 && c != 2 {
+			return nil, nil, false
+		}
+		for j, e := range r.Execs {
+			all = append(all, ex{k, j, e})
+		}
+	}
+	sort.Slice(all, func(a, b int) bool { return all[a].e.Seq < all[b].e.Seq })
+	gens := map[int64]int{}
+	for _, x := range all {
+		if _, ok := gens[x.e.Session]; !ok {
+			gens[x.e.Session] = len(gens)
+		}
+	}
+	G := len(gens)
+	const (
+		idle = iota
+		onconn
+		waiting
+		done
+	)
+	state := make([]int, len(reqs))
+	acked := make([]bool, len(reqs))
+	var mes []string
+	own := func(k int, e string) { mes = append(mes, fmt.Sprintf("MOwn %d%%nat (%s)", k, e)) }
+	env := func(e string) { mes = append(mes, "MEnv ("+e+")") }
+	for g := 0; g < G || (g == 0 && G == 0); g++ {
+		for _, x := range all {
+			if gens[x.e.Session] != g {
+				continue
+			}
+			if state[x.k] != idle {
+				return nil, nil, false // two executions of one request on one generation: not expressible
+			}
+			r := reqs[x.k]
+			own(x.k, "ESnapshot")
+			own(x.k, "ESend")
+			state[x.k] = onconn
+			if x.e.Acked || x.e.AckDelivered {
+				own(x.k, "EAck")
+				acked[x.k] = true
+			}
+			if x.j == len(r.Execs)-1 && r.Err == "" {
+				own(x.k, "EResult 1%Z")
+				state[x.k] = done
+			}
+		}
+		last := g >= G-1
+		needKill := !last
+		for k, r := range reqs {
+			if state[k] == onconn && obsClass(r) == 1 {
+				needKill = true
+			}
+		}
+		if needKill {
+			env(fmt.Sprintf("EKill %d%%nat", g))
+			for k := range reqs {
+				if state[k] == onconn {
+					own(k, "EObserveDead")
+					if acked[k] {
+						state[k] = done
+					} else {
+						state[k] = waiting
+					}
+				}
+			}
+		}
+		if !last {
+			env("EReplace")
+			env("EStart")
+			for k := range reqs {
+				if state[k] == waiting {
+					own(k, "EWake")
+					state[k] = idle
+				}
+			}
+		}
+		if G == 0 {
+			break
+		}
+	}
+	if closed {
+		env("EClose")
+		for k := range reqs {
+			switch state[k] {
+			case idle:
+				own(k, "ESnapshot")
+				own(k, "EObserveDead")
+				own(k, "EWakeClosed")
+			case onconn:
+				own(k, "EObserveDead")
+				if !acked[k] {
+					own(k, "EWakeClosed")
+				}
+			case waiting:
+				own(k, "EWakeClosed")
+			}
+		}
+	}
+	obsl := make([]string, len(reqs))
+	for k, r := range reqs {
+		obsl[k] = hx.Tuple(hx.Z(int64(obsClass(r))), fmt.Sprintf("%d%%nat", len(r.Execs)))
+	}
+	return mes, obsl, true
 }
 
 // reconstruct builds a model event list that is consistent with what was observed for one
